@@ -14,6 +14,17 @@ CLAIMED = {
             "Trusted: Lean kernel (axioms propext, Classical.choice, Quot.sound); hand-written model tied by correspondence only; SHA-256 as "
             "executable FIPS 180-4 spec (validated against md_map_sh256 in the same run); ctx->counter is an int (history bound).",
             "DESIGN.md §5 C15"),
+    "C19": ("Lean 4 simulation proof (macro machine of relic_err.h ⊑ structured try/catch/finally semantics, structural induction over "
+            "programs) + generated C programs compiled with the real macros",
+            "Proved in Lean for the model: for every program (any nesting depth and order of try / throw / rethrow / catch-with-variable / "
+            "catch-any / finally / throws outside any block / err_get_code observations) the macro machine yields the same action trace, "
+            "sticky code and handler chain as the structured semantics; the pre-repair macro is proved right only on programs without a "
+            "protected block inside FINALLY, with two machine-checked counterexamples. Tie: ~1500 random program ASTs per run are printed "
+            "with the real macros, compiled against the freshly built library and compared with the model. PARTIAL: per-context / per-thread "
+            "independence and re-parameterisation are not yet covered by this check.",
+            "Trusted: Lean kernel; hand-written machine model tied by correspondence; setjmp/longjmp and the compiler are modelled "
+            "(a throw transfers control to the frame ctx->last points to); the AST-to-C printer in tools/props/c19.py.",
+            "DESIGN.md §5 C19"),
 }
 
 PENDING_REASON = {
